@@ -8,7 +8,7 @@ from .. import gen_timing as GT
 ID = "C11"
 RULE = ("timing data: all placements of up to 2 (quick) / 3 (thorough) events on a 4-beat grid, random dyadic and general data with coinciding events, "
         "corpus simfiles; probes: every event beat and warp end +-1 tick, negative and random beats, all seven tags; time within 1e-9 s of the exact "
-        "rational timeline, bpm_at exact; second scenario with the offset shifted and with redundant BPM rows inserted; non-trivial = >= 2 events")
+        "rational timeline, bpm_at exact; every probe asked again on the same engine in descending and in shuffled order with other queries in between; second scenario with the offset shifted and with redundant BPM rows inserted; non-trivial = >= 2 events")
 assumptions = ["binary64 evaluation stays within 1e-9 s of the exact rational on the bounded domain (times < 1e5 s, BPM <= 2000): measured here, not proved"]
 extra_trusted = ["Python Fraction/Decimal for the exact reference timeline (harness oracle)"]
 TOL = Fraction(1, 10 ** 9)
@@ -100,13 +100,26 @@ def impl(c):
     times = [float(eng.time_at(Beat(b, 48), EventTag(t))) for b, t in ps]
     bpms = [str(eng.bpm_at(Beat(b, 48))) for b in sorted({b for b, _ in ps})]
     default = [float(eng.time_at(Beat(b, 48))) for b in sorted({b for b, _ in ps})]
+    # the same engine asked again, in descending and in shuffled order, with other queries in between: answers have no memory
+    back = [float(eng.time_at(Beat(b, 48), EventTag(t))) for b, t in reversed(ps)][::-1]
+    order = list(range(len(ps)))
+    import random as _r
+    _r.Random(len(ps) * 7919 + c["extra"]).shuffle(order)
+    shuf = [None] * len(ps)
+    for j, i in enumerate(order):
+        b, t = ps[i]
+        if j % 3 == 0:
+            eng.bpm_at(Beat(b, 48)); eng.hittable(Beat(b, 48))
+        if j % 5 == 0:
+            eng.beat_at(float(j % 7) - 1.0)
+        shuf[i] = float(eng.time_at(Beat(b, 48), EventTag(t)))
     # shifted offset and redundant BPM rows
     td2 = dict(td, offset=str(Decimal(td["offset"]) + Decimal("1.5")))
     eng2 = TimingEngine(GT.mk_timing_data(td2))
     shifted = [float(eng2.time_at(Beat(b, 48), EventTag(t))) for b, t in ps]
     eng3 = TimingEngine(GT.mk_timing_data(with_redundant_bpms(td)))
     redundant = [float(eng3.time_at(Beat(b, 48), EventTag(t))) for b, t in ps]
-    return {"times": times, "bpms": bpms, "default": default, "shifted": shifted, "redundant": redundant}
+    return {"times": times, "bpms": bpms, "default": default, "shifted": shifted, "redundant": redundant, "back": back, "shuf": shuf}
 
 
 def requests(c):
@@ -126,7 +139,8 @@ def model(c, ans):
     stop_tag = {b: times[i] for i, (b, t) in enumerate(ps) if t == 5}
     fq = lambda q: [q.numerator, q.denominator]
     return {"times": [fq(t) for t in times], "bpms": [fq(GT.un_q(x)) for x in a[3]], "default": [fq(stop_tag[b]) for b in bs],
-            "shifted": [fq(t - Fraction(3, 2)) for t in times], "redundant": [fq(t) for t in times]}
+            "shifted": [fq(t - Fraction(3, 2)) for t in times], "redundant": [fq(t) for t in times],
+            "back": [fq(t) for t in times], "shuf": [fq(t) for t in times]}
 
 
 def close(f, q):
@@ -142,7 +156,7 @@ def agree(io, mo):
         return False
     if [Fraction(Decimal(x)) for x in io["bpms"]] != [Fraction(q[0], q[1]) for q in mo["bpms"]]:
         return False
-    return all(close(f, q) for k in ("default", "shifted", "redundant") for f, q in zip(io[k], mo[k]))
+    return all(close(f, q) for k in ("default", "shifted", "redundant", "back", "shuf") for f, q in zip(io[k], mo[k]))
 
 
 def oracle(c, o):
@@ -150,8 +164,11 @@ def oracle(c, o):
         return "library raised %s (%s)" % (o["__harness_exc__"], o.get("msg"))
     td = c["td"]
     ps = probes(c)
-    for (b, t), got, sh, rd in zip(ps, o["times"], o["shifted"], o["redundant"]):
+    for (b, t), got, sh, rd, bk, sf in zip(ps, o["times"], o["shifted"], o["redundant"], o["back"], o["shuf"]):
         want = GT.spec_time(td, Fraction(b, 48), t)
+        if not close(bk, want) or not close(sf, want):
+            return "time_at(beat %s, %s) depends on the queries made before it on the same engine: %r (descending order) / %r (shuffled) vs exact %s" % (
+                Fraction(b, 48), GT.TAGS[t], bk, sf, float(want))
         if not close(got, want):
             return "time_at(beat %s, %s) = %r, exact timeline gives %s" % (Fraction(b, 48), GT.TAGS[t], got, float(want))
         if not close(sh, want - Fraction(3, 2)):
